@@ -712,6 +712,98 @@ example : ∃ (n : Nat) (K : Nat → Nat → Rat) (Cn Cp : Rat) (w : Nat → Rat
   ⟨2, fun _ _ => 1, 1, 2, fun _ => 1, fun _ _ => rfl, by norm_num, by norm_num, fun _ _ => by norm_num⟩
 
 
+/-! ## The offsets of the ε-regression and one-class machines -/
+
+theorem foldl_range_congr {β : Type} (f g : β → Nat → β) (init : β) : ∀ n, (∀ acc k, k < n → f acc k = g acc k) →
+    (List.range n).foldl f init = (List.range n).foldl g init := by
+  intro n
+  induction n with
+  | zero => intro _; rfl
+  | succ n ih =>
+    intro h
+    rw [List.range_succ, List.foldl_append, List.foldl_append, ih (fun acc k hk => h acc k (by omega))]
+    simp only [List.foldl_cons, List.foldl_nil]
+    exact h _ n (Nat.lt_succ_self n)
+
+/-- for boxes with non-empty interior the offset loop of `EpsilonSvmTrainer` computes what `CSvmTrainer::computeBias`
+computes (`std::max(value, bound)` versus `if (value > bound) bound = value`) -/
+theorem epsOffset_eq_computeBias (s : RS) (cnt : Nat → Rat) (hnd : ∀ k, k < s.n → s.boxMin k ≠ s.boxMax k) (hn : s.n ≠ 0) :
+    epsOffset s cnt = computeBias s cnt := by
+  unfold epsOffset computeBias
+  rw [if_neg hn]
+  dsimp only
+  rw [foldl_range_congr _ (fun (acc : Rat × Rat × Rat × Nat) i =>
+      if s.boxMin i == s.boxMax i then acc
+      else if s.alpha i == s.boxMin i then
+        (if s.g i > acc.1 then (s.g i, acc.2.1, acc.2.2.1, acc.2.2.2) else acc)
+      else if s.alpha i == s.boxMax i then
+        (if s.g i < acc.2.1 then (acc.1, s.g i, acc.2.2.1, acc.2.2.2) else acc)
+      else (acc.1, acc.2.1, acc.2.2.1 + s.g i, acc.2.2.2 + 1)) _ s.n]
+  intro acc k hk
+  have hd : ¬ ((s.boxMin k == s.boxMax k) = true) := by rw [beq_iff_eq]; exact hnd k hk
+  rw [if_neg hd]
+  split
+  · unfold smax; split
+    · rename_i h; rw [if_neg (not_lt.mpr (le_of_lt h))]
+    · rename_i h
+      by_cases hgt : s.g k > acc.1
+      · rw [if_pos hgt]
+      · rw [if_neg hgt]
+        have : s.g k = acc.1 := le_antisymm (not_lt.mp hgt) (not_lt.mp h)
+        rw [this]
+  · split
+    · unfold smin; split
+      · rename_i h; rw [if_neg (not_lt.mpr (le_of_lt h))]
+      · rename_i h
+        by_cases hlt : s.g k < acc.2.1
+        · rw [if_pos hlt]
+        · rw [if_neg hlt]
+          have : s.g k = acc.2.1 := le_antisymm (not_lt.mp h) (not_lt.mp hlt)
+          rw [this]
+    · rfl
+
+/-- **the offset of the ε-regression machine lies in the KKT interval** (same statement and hypotheses as
+`bias_in_kkt_interval_partial`; the boxes `[0,C]`, `[−C,0]` of ε-regression have non-empty interior for `C > 0`) -/
+theorem eps_offset_in_kkt_interval_partial {s : RS} (h : Smo.Inv s) {ε : Rat} (hε : 0 ≤ ε)
+    (hpair : ∀ i j, i < s.n → j < s.n → s.alpha i < s.U i → s.L j < s.alpha j → s.g i - s.g j ≤ ε)
+    (hnd : ∀ k, k < s.n → s.L k < s.U k)
+    (hrange : ∀ k, k < s.n → -(10 : Rat) ^ 100 ≤ s.g k ∧ s.g k ≤ 10 ^ 100) :
+    (∀ i, i < s.n → s.alpha i < s.U i → s.g i - epsOffset s (fun k => (k : Rat)) ≤ ε) ∧
+    (∀ j, j < s.n → s.L j < s.alpha j → epsOffset s (fun k => (k : Rat)) - s.g j ≤ ε) := by
+  by_cases hn : s.n = 0
+  · exact ⟨fun i hi => by omega, fun j hj => by omega⟩
+  rw [epsOffset_eq_computeBias s _ (fun k hk => by
+    rw [boxMin_eq h hk, boxMax_eq h hk]; exact ne_of_lt (hnd k hk)) hn]
+  exact bias_in_kkt_interval_partial h hε hpair hrange
+
+
+/-- the offset loop of `OneClassSvmTrainer` (literal tests `alpha == 0`, `alpha == upper`) is the box-based loop when the
+box is `[0, upper]` -/
+theorem oneClassOffset_eq_epsOffset (s : RS) (upper : Rat) (cnt : Nat → Rat)
+    (hb : ∀ k, k < s.n → s.boxMin k = 0 ∧ s.boxMax k = upper) :
+    oneClassOffset s upper cnt = epsOffset s cnt := by
+  unfold oneClassOffset epsOffset
+  dsimp only
+  rw [foldl_range_congr _ (fun (acc : Rat × Rat × Rat × Nat) i =>
+      if s.alpha i == s.boxMin i then (smax (s.g i) acc.1, acc.2.1, acc.2.2.1, acc.2.2.2)
+      else if s.alpha i == s.boxMax i then (acc.1, smin (s.g i) acc.2.1, acc.2.2.1, acc.2.2.2)
+      else (acc.1, acc.2.1, acc.2.2.1 + s.g i, acc.2.2.2 + 1)) _ s.n]
+  intro acc k hk
+  rw [(hb k hk).1, (hb k hk).2, lit0]
+
+/-- **the offset of the one-class machine lies in the KKT interval** -/
+theorem oneclass_offset_in_kkt_interval_partial {s : RS} (h : Smo.Inv s) {ε upper : Rat} (hε : 0 ≤ ε) (hup : 0 < upper)
+    (hbox : ∀ k, k < s.n → s.L k = 0 ∧ s.U k = upper)
+    (hpair : ∀ i j, i < s.n → j < s.n → s.alpha i < s.U i → s.L j < s.alpha j → s.g i - s.g j ≤ ε)
+    (hrange : ∀ k, k < s.n → -(10 : Rat) ^ 100 ≤ s.g k ∧ s.g k ≤ 10 ^ 100) :
+    (∀ i, i < s.n → s.alpha i < s.U i → s.g i - oneClassOffset s upper (fun k => (k : Rat)) ≤ ε) ∧
+    (∀ j, j < s.n → s.L j < s.alpha j → oneClassOffset s upper (fun k => (k : Rat)) - s.g j ≤ ε) := by
+  rw [oneClassOffset_eq_epsOffset s upper _ (fun k hk => by
+    rw [boxMin_eq h hk, boxMax_eq h hk]; exact hbox k hk)]
+  exact eps_offset_in_kkt_interval_partial h hε hpair
+    (fun k hk => by rw [(hbox k hk).1, (hbox k hk).2]; exact hup) hrange
+
+
 /-! ## End to end: what `AccuracyReached` means for the trained machine -/
 
 /-- positive semi-definiteness of a kernel in the usual sense: every finite Gram matrix `K(f a, f b)` is PSD -/
